@@ -116,7 +116,7 @@ theorem C13_reader_rejects_oversized (f : Frame) (o : Options) (rest : List Row)
     (h : 4096 < o.maxNames ∨ 4096 < o.maxPrefixes ∨ 4096 < o.maxDatatypes) :
     DecState.new opts a = .error .jassertion := by
   apply DecState.new_oversized
-  rw [optionsFromFrame_ok hf ho]
+  rw [optionsFromFrame_ok_hdr hf ho]
   exact h
 
 /-- (b') A stream declaring a protocol version above 2 is rejected at its options row: the parser
@@ -129,9 +129,9 @@ theorem C13_reader_rejects_new_version (f : Frame) (o : Options) (rest : List Ro
     (_ha : adapterFor opts.physical = .ok a)
     (hd : DecState.new opts a = .ok d0) :
     d0.decodeRow quoted (.options o) = .error .assertionError := by
-  obtain ⟨hopts, _⟩ := DecState.new_ok hd
+  obtain ⟨hopts, _⟩ := DecState.new_ok_hdr hd
   have hver : d0.opts.version = 2 := by
-    rw [hopts, optionsFromFrame_ok hf ho]
+    rw [hopts, optionsFromFrame_ok_hdr hf ho]
     exact if_pos (by omega)
   simp only [DecState.decodeRow, DecState.validateOptions, hver]
   rw [if_neg]
